@@ -16,6 +16,19 @@ struct Desc { Fam fam; int hash; int cb; };
 
 #include "table.inc"
 
+// A name is materialised as a QString over harness-owned static storage (one slot per use, so that every data pointer is
+// concrete): size and characters are the row of NAME_TAB selected by the symbolic index.
+struct Slot { QArrayData hdr; char16_t data[C05_MAXLEN]; };
+static Slot slots[VP_NOFF + VP_NDIS + 1] = {};
+static QString nameOf(unsigned slot, unsigned i)
+{
+    Slot &s = slots[slot];
+    s.hdr.ref.atomic.storeRelaxed(-1);   // static data, never freed (as QStringLiteral)
+    s.hdr.size = NAME_LEN[i]; s.hdr.alloc = 0; s.hdr.capacityReserved = 0; s.hdr.offset = sizeof(QArrayData);
+    for (int j = 0; j < C05_MAXLEN; j++) s.data[j] = NAME_TAB[i][j];
+    return QString(QStringDataPtr { static_cast<QStringData *>(&s.hdr) });
+}
+
 
 struct Sym {
     unsigned offered[VP_NOFF]; unsigned nOff;
@@ -151,10 +164,10 @@ static void applyConfig(QXmppConfiguration &config, const Sym &s, bool defaultDi
     if (!defaultDisabled) {
         QList<QString> dis;
         for (unsigned k = 0; k < VP_NDIS; k++)
-            if (k < s.nDis) dis.append(nameOf(s.disabled[k]));
+            if (k < s.nDis) dis.append(nameOf(VP_NOFF + k, s.disabled[k]));
         config.setDisabledSaslMechanisms(dis);
     }
-    if (s.hasPreferred) config.setSaslAuthMechanism(nameOf(s.preferred));
+    if (s.hasPreferred) config.setSaslAuthMechanism(nameOf(VP_NOFF + VP_NDIS, s.preferred));
     auto &c = config.credentialData();
     const QString secret = QStringLiteral("s3cret");
     if (s.password) c.password = secret;
@@ -208,7 +221,7 @@ extern "C" void h_choose()
     applyConfig(config, s, false);
     QList<QString> off;
     for (unsigned k = 0; k < VP_NOFF; k++)
-        if (k < s.nOff) off.append(nameOf(s.offered[k]));
+        if (k < s.nOff) off.append(nameOf(k, s.offered[k]));
     auto [mech, disabledAvailable] = chooseMechanism(config, off);
     checkChoice(s, mech);
 }
@@ -221,7 +234,7 @@ extern "C" void h_default_plain()
     applyConfig(config, s, true);
     QList<QString> off;
     for (unsigned k = 0; k < VP_NOFF; k++)
-        if (k < s.nOff) off.append(nameOf(s.offered[k]));
+        if (k < s.nOff) off.append(nameOf(k, s.offered[k]));
     auto [mech, disabledAvailable] = chooseMechanism(config, off);
     if (mech) vp_assert(!std::holds_alternative<SaslPlainMechanism>(*mech), "C05 PLAIN chosen under the default configuration (PLAIN is disabled by default)");
     s.nDis = 1; s.disabled[0] = IDX_PLAIN;
